@@ -196,6 +196,24 @@ pub fn hostile_msg(seed: u64, idx: u64) -> Vec<u8> {
         }
     };
     let mut rr = Rng::for_case(seed, "c12-hostile-mut", idx);
+    // attribute-shaped TXT text in valid UTF-8 with multi-byte characters around '=' and ';' (the text
+    // conversions only go past their UTF-8 check for such content)
+    if idx % 3 == 0 {
+        const PIECES: [&str; 14] = ["a", "k", "=", ";", "é", "ключ", "€", "😀", "\u{013B}", "\u{013D}", " ", "v1", "==", ";;"];
+        let n = rr.usize(1, 4);
+        let strings: Vec<Vec<u8>> = (0..n).map(|_| {
+            let mut t = String::new();
+            for _ in 0..rr.usize(0, 9) {
+                let pc: &str = *rr.pick(&PIECES);
+                t.push_str(pc);
+            }
+            let mut b = t.into_bytes();
+            b.truncate(255);
+            while std::str::from_utf8(&b).is_err() { b.pop(); }
+            b
+        }).collect();
+        p.secs[(idx % 2) as usize * 2].push(RecSem { name: vec![b"txt".to_vec(), b"local".to_vec()], rtype: 16, class: 1, flush: false, ttl: 120, rd: Rd::Fields(vec![F::List(strings)]) });
+    }
     for q in p.qs.iter_mut() {
         for l in q.name.iter_mut() {
             hostile(&mut rr, l, 63);
